@@ -520,6 +520,11 @@ func TestCopies(t *testing.T) {
 	st.SetRapid(600, 20000, 14)
 	rapid.Check(t, func(t *rapid.T) {
 		sc := gen.GenSchema(t, gen.SchemaOpts{MinStates: 2, MaxStates: 5})
+		for i := range sc.States {
+			if rapid.Bool().Draw(t, "tags") {
+				sc.States[i].Tags = []string{"tagA", fmt.Sprintf("idx:%d", i)}
+			}
+		}
 		c := rec.Case{Schema: sc, History: gen.GenHistory(t, sc, gen.HistoryOpts{MinLen: 1, MaxLen: 6})}
 		st.Journal(map[string]any{"kind": "copies", "case": c})
 		run, err := rec.Exec(c, rec.ExecOpts{Opts: &am.Opts{Tags: []string{"t1", "t2"}}})
@@ -566,6 +571,15 @@ func TestCopies(t *testing.T) {
 			if len(v.Require) > 0 {
 				v.Require[0] = "Q"
 			}
+			if len(v.Add) > 1 {
+				v.Add[0] = "Q"
+			}
+			if len(v.After) > 0 {
+				v.After[0] = "Q"
+			}
+			for ti := range v.Tags {
+				v.Tags[ti] = "scribbled"
+			}
 			sch[k] = v
 		}
 		delete(sch, sc.States[0].Name)
@@ -585,7 +599,13 @@ func TestCopies(t *testing.T) {
 			// StateNames documents a SHARED copy): not mutated here, the statement lists
 			// active states, schema, clock, time, tags, queue, tracers
 		}
-		for k := range esch {
+		for k, v := range esch {
+			for ti := range v.Tags {
+				v.Tags[ti] = "scribbled"
+			}
+			for ri := range v.Remove {
+				v.Remove[ri] = "Q"
+			}
 			delete(esch, k)
 		}
 		after := snap()
